@@ -367,6 +367,152 @@ def main():
 
     kip_order = route("parse_kip", r"\bvalidate_command\s*\(\s*&?\s*\w+\s*\)", "validate_command")
     kml_order = route("parse_kml", r"\bkml\s*::\s*validate_plan\s*\(\s*&?\s*\w+\s*\)", "validate_plan")
+    # how the guards walk what they guard: every block / action / key, or only a first one
+    SHORT = r"\.\s*(take|skip|first|next|nth|last|find|find_map|position|step_by|get|take_while|skip_while)\s*\("
+
+    def enclosing_iterations(body, pos):
+        """[(header, kind, inner)] of the for-loops and iterator-adaptor calls around `pos`, outermost first."""
+        found = []
+        for m in re.finditer(r"\bfor\s+[^{;]*?\bin\b([^{;]*)\{", body):
+            start = m.end() - 1
+            end = matching(body, start, "{", "}")
+            if start < pos < end:
+                found.append((m.start(), m.group(1), "for", body[start:end]))
+        for m in re.finditer(r"\.\s*(\w+)\s*\(", body):
+            start = m.end() - 1
+            end = matching(body, start, "(", ")")
+            if start < pos < end:
+                head = body[max(0, m.start() - 160):m.start()]
+                head = re.split(r"[;{}]", head)[-1]
+                method = m.group(1)
+                if method in ("try_for_each", "for_each", "all"):
+                    found.append((m.start(), head, method, body[start:end]))
+                elif re.search(SHORT, head + "." + method + "("):
+                    # a closure fed from a chain that picks one element: a walk that is not `every`
+                    found.append((m.start(), head + "." + method + "(", method, body[start:end]))
+        return [(h, k, inner) for _, h, k, inner in sorted(found)]
+
+    def is_every(it):
+        h, k, inner = it
+        if k == "for":
+            return not (re.search(SHORT, h) or re.search(r"\bbreak\b", inner) or re.search(r"\breturn\s+Ok\b", inner))
+        if k in ("try_for_each", "for_each", "all"):
+            return not re.search(SHORT, h)
+        return False
+
+    # the functions of kml.rs (test module cut off), to follow a guard call up through private helpers
+    kml_code = kml.split("#[cfg(test)]")[0]
+    fns = []
+    for m in re.finditer(r"\bfn\s+(\w+)\s*(<[^>]*>)?\s*\(", kml_code):
+        brace = kml_code.find("{", m.end())
+        semi = kml_code.find(";", m.end())
+        if brace < 0 or (0 <= semi < brace):
+            continue
+        fns.append((m.group(1), brace, matching(kml_code, brace, "{", "}")))
+
+    def containing(pos):
+        best = None
+        for name, a, b in fns:
+            if a < pos < b and (best is None or a > best[1]):
+                best = (name, a, b)
+        return best
+
+    def chains(pos, root, depth=4):
+        """every chain of enclosing iterations (outermost first) from `root` down to the call at `pos`"""
+        f = containing(pos)
+        if f is None:
+            die("a guard call outside any function")
+        name, a, b = f
+        here = enclosing_iterations(kml_code[a:b + 1], pos - a)
+        if name == root or (root is None and depth == 0):
+            return [here]
+        if depth == 0:
+            die(f"cannot follow the guard call up to {root}")
+        sites = [m.start() for m in re.finditer(r"(?<![:\w.])" + re.escape(name) + r"\s*\(", kml_code) if not (a - 200 < m.start() < a)]
+        sites = [p for p in sites if containing(p) and containing(p)[0] != name]
+        if not sites:
+            if root is None:
+                return [here]
+            die(f"{name} (which holds a guard call) is not called from {root}")
+        out = []
+        for p in sites:
+            for up in chains(p, root, depth - 1):
+                out.append(up + here)
+        return out
+
+    def verdict(its_list, where):
+        vs = {"every" if all(is_every(it) for it in its) else "first" for its in its_list}
+        if len(vs) != 1:
+            die(f"{where}: the guard calls walk their subject in different ways")
+        return vs.pop()
+
+    imm = [m.start() for m in re.finditer(r"(?<![:\w.])guard_immutable_field\s*\(", kml_code) if containing(m.start()) and containing(m.start())[0] != "guard_immutable_field"]
+    stru = [m.start() for m in re.finditer(r"(?<![:\w.])guard_structural_mutation\s*\(", kml_code) if containing(m.start()) and containing(m.start())[0] != "guard_structural_mutation"]
+    if not imm or not stru:
+        die("guard_update: a guard call is gone")
+    imm_chains = [c for p in imm for c in chains(p, "guard_update")]
+    stru_chains = [c for p in stru for c in chains(p, "guard_update")]
+    for c in imm_chains:
+        if len(c) < 3:
+            die("guard_update: guard_immutable_field is no longer inside the three iterations kinds / actions / fields of SET FIELDS")
+    for c in stru_chains:
+        if len(c) < 2:
+            die("guard_update: guard_structural_mutation is no longer inside the two iterations kinds / actions")
+    scans = [
+        ("guard_update.actions", verdict([[c[-2]] for c in imm_chains] + [[c[-1]] for c in stru_chains], "guard_update (actions)")),
+        ("guard_update.kinds", verdict([[c[-3]] for c in imm_chains] + [[c[-2]] for c in stru_chains], "guard_update (kinds)")),
+        ("guard_update.fields", verdict([[c[-1]] for c in imm_chains], "guard_update (fields)")),
+    ]
+
+    def innermost(call_rx, where, need_header=None):
+        ps = [m.start() for m in re.finditer(call_rx, kml_code) if containing(m.start())]
+        its = []
+        for p in ps:
+            name, a, b = containing(p)
+            e = enclosing_iterations(kml_code[a:b + 1], p - a)
+            if need_header is not None:
+                e = [it for it in e if re.search(need_header, it[0])]
+            if e:
+                its.append([e[-1]])
+        if not its:
+            die(f"{where}: no guard call is inside an iteration over what it guards")
+        return verdict(its, where)
+
+    # the key checkers: the closures / functions of kml.rs that consult is_protected_field (whatever they are called)
+    checkers = []
+    for m in re.finditer(r"\blet\s+(\w+)\s*=\s*(move\s*)?\|[^|]*\|[^{;]*\{", kml_code):
+        end = matching(kml_code, m.end() - 1, "{", "}")
+        if re.search(r"\bis_protected_field\s*\(", kml_code[m.end():end]):
+            checkers.append(m.group(1))
+    for name, a, b in fns:
+        inner_fns = [(n2, a2, b2) for n2, a2, b2 in fns if a < a2 and b2 < b]
+        text = kml_code[a:b]
+        if re.search(r"\bis_protected_field\s*\(", text) and not any(re.search(r"\bis_protected_field\s*\(", kml_code[a2:b2]) for _, a2, b2 in inner_fns):
+            # a function whose own body (not a closure already listed) holds the call
+            closures_here = [c for c in checkers if re.search(r"\blet\s+" + re.escape(c) + r"\s*=", text)]
+            if not closures_here:
+                checkers.append(name)
+    checkers = sorted(set(checkers))
+    if not checkers:
+        die("validate_clause: nothing consults is_protected_field any more")
+    chk = r"(?<![:\w.])(" + "|".join(re.escape(c) for c in checkers) + r")\s*\("
+    # the walk over the actions of an UPDATE: the iteration over `.actions` around a key-checker call, followed up
+    # through private helpers (the checker may be called from a per-action helper that a loop calls)
+    act_its = []
+    for m in re.finditer(chk, kml_code):
+        if not containing(m.start()):
+            continue
+        for ch in chains(m.start(), None, 3):
+            over = [it for it in ch if re.search(r"\bactions\b", it[0])]
+            if over:
+                act_its.append([over[-1]])
+    if not act_its:
+        die("validate_clause (UPDATE actions): no key check is inside an iteration over the actions")
+    scans.append(("validate_clause.update_actions", verdict(act_its, "validate_clause (UPDATE actions)")))
+    scans.append(("validate_clause.keys", innermost(r"\bis_protected_field\s*\(", "validate_clause (keys of a block)")))
+    scans.append(("validate_clause.facets", innermost(chk[:-5] + r"\s*\(\s*&\s*\w+\s*\.\s*values\s*\)", "validate_clause (SET FACET blocks)")))
+    scans.append(("validate_clause.unset_facets", innermost(chk[:-5] + r"\s*\(\s*&\s*\w+\s*\.\s*fields\s*\)", "validate_clause (UNSET FACET blocks)")))
+
     # validate_command: which validator a KML statement / an EXPORT CAPSULE selection is handed to
     # (looked for in validate_command and in the parser.rs helpers it calls, one level deep)
     vc = fn_body(parser_rs, "validate_command", "parser.rs")
@@ -453,6 +599,9 @@ def main():
     L.append("/-- `UpdateAction` variants with their block kind -/")
     L.append("def updateActions : List (String × String) := " +
              lean_list([f"({lean_str(v)}, {lean_str(k)})" for v, k in action_rows]))
+    L.append("")
+    L.append("/-- how each guard walks what it guards (`every` block / action / key, or only a `first` one): the loops of `guard_update` and `validate_clause` -/")
+    L.append("def guardScans : List (String × String) := [" + ", ".join(f"({lean_str(a)}, {lean_str(b)})" for a, b in scans) + "]")
     L.append("")
     table("parseKipOrder", kip_order, "`parse_kip` (parser.rs): order of the budget scan, the grammar, `validate_command(&command)?` and the final `Ok(command)`")
     table("parseKmlOrder", kml_order, "`parse_kml` (parser.rs): the same with `kml::validate_plan(&statement)?`")
